@@ -1122,6 +1122,10 @@ func parseAssign(s string) (AssignSpec, error) {
 	case strings.HasPrefix(s, "ghost "):
 		as.Kind = "ghost"
 		as.Heap = strings.TrimSpace(s[6:])
+	case strings.HasPrefix(s, "var "):
+		// a captured variable of a closure (its cell is havocked at the call)
+		as.Kind = "var"
+		as.Heap = strings.TrimSpace(s[4:])
 	case strings.HasPrefix(s, "heap "):
 		as.Kind = "heap"
 		as.Heap = strings.TrimSpace(s[5:])
